@@ -127,6 +127,12 @@ func genC14Conn(t *rapid.T, w cfggen.World) c14Conn {
 		case "author-policy":
 			// the kind of request C11 sends, for the user with the generated policy; often sent twice
 			r := genC11Request(t, []string{"ruler", "ruler", "ruler", "mallory"})
+			// hostile: arguments that are no attribute-value pairs at all (no separator, only separators)
+			for k := rapid.IntRange(0, 5).Draw(t, "odd_args"); k >= 4 && len(r.Args) < 250; k-- {
+				odd := rapid.SampledFrom([]string{"nohup", "ab", "==", "**", "*=", "service", "cmd-arg", "=x", "*x", "x=", "  ", "shell"}).Draw(t, "odd_arg")
+				at := rapid.IntRange(0, len(r.Args)).Draw(t, "odd_at")
+				r.Args = append(r.Args[:at], append([]string{odd}, r.Args[at:]...)...)
+			}
 			var margs []model.B
 			for _, a := range r.Args {
 				margs = append(margs, model.B(a))
@@ -221,7 +227,7 @@ func runC14(t failer, c c14Case) (handled int) {
 	fail := func(sig, format string, args ...interface{}) {
 		violation(t, "C14", "robustness", "C14:"+sig, c, format, args...)
 	}
-	env, err := startRef(c.World.Cfg, refOpts{format: c.Format, keychain: refsrv.MapKeychain(c.World.KeychainBytes()), recover: true, proxy: c.Proxy})
+	env, err := startRef(c.World.Cfg, refOpts{format: c.Format, keychain: refsrv.MapKeychain(c.World.KeychainBytes()), recover: true, proxy: c.Proxy, realLog: 30})
 	if err != nil {
 		ev.Class("config-refused")
 		return 0
